@@ -127,3 +127,43 @@ def random_streams(seed: int, n: int, max_depth: int = 4):
             del m[pos]
         out.append(m)
     return out
+
+
+def scaled_cases(seed: int, n: int):
+    """Formulas whose terms carry numeric scalings (`2:a`, `3:a:b`): [(formula text, intercept?, expected term list)].
+    By construction: a scaling is not a factor of the interaction, so the final order is the stable sort by the number of
+    NAMED factors (ties in first-appearance order), with the intercept first when there is one."""
+    import random
+
+    rng = random.Random(seed)
+    out = []
+    names = ["a", "b", "c", "d"]
+    for _ in range(n):
+        terms, seen = [], set()
+        for _k in range(rng.randint(2, 5)):
+            fs = sorted(rng.sample(names, rng.choice([1, 1, 2, 2, 3])))
+            if tuple(fs) in seen:
+                continue
+            seen.add(tuple(fs))
+            sc = rng.choice(["", "", "2", "3", "2.5"])
+            terms.append((sc, fs))
+        icpt = rng.random() < 0.6
+        written = [":".join(([sc] if sc else []) + fs) for sc, fs in terms]
+        text = ("" if icpt else "0 + ") + " + ".join(written)
+        order = sorted(range(len(terms)), key=lambda i: len(terms[i][1]))
+        out.append((text, icpt, (["1"] if icpt else []) + [written[i] for i in order]))
+    return out
+
+
+def scaled_check(text: str, expected: list, route: str):
+    from formulaic.formula import Formula
+
+    if route == "string":
+        got = [str(t) for t in Formula.from_spec(text)]
+    elif route == "rhs":
+        got = [str(t) for t in Formula.from_spec("y ~ " + text).rhs]
+    else:  # one part of a multi-part formula
+        got = [str(t) for t in Formula.from_spec("y ~ z | " + text).rhs[1]]
+    if got != expected:
+        return f"scaled-term-order: formula {text!r} ({route}) gives {got}, ordering by interaction degree (a numeric scaling is no factor) gives {expected}"
+    return None
